@@ -442,6 +442,31 @@ fn main() {
             check_text(t, &text);
         });
     }
+    // dependency items that point at the record itself, at a neighbour, or repeat: an item is an
+    // item, whatever it names (list fields hold "the whitespace-separated items in order")
+    {
+        let mut t = Tally::new();
+        let mut n = 0;
+        for (name, loc) in [("foo-1.0", "cat/foo"), ("py311-bar-2.3nb1", "devel/py-bar"), ("a-1", "c/a")] {
+            let base = &name[..name.rfind('-').unwrap()];
+            let items = [
+                format!("{}-[0-9]*:../../{}", base, loc), format!("{}:../../{}", name, loc), format!("{}>=0:../../{}", base, loc), format!("{}-[0-9]*:{}", base, loc),
+                format!("{{{},x}}-[0-9]*:../../{}", base, loc), format!("*:../../{}", loc), format!("{}-[0-9]*:../../other/pkg", base), format!("other-[0-9]*:../../{}", loc),
+            ];
+            for i in 0..items.len() {
+                for j in 0..items.len() {
+                    let text = format!("PKGNAME={}\nPKG_LOCATION={}\nALL_DEPENDS={} dep-[0-9]*:../../cat/dep {}\nPKGNAME=next-1\nPKG_LOCATION={}\nALL_DEPENDS={}\n", name, loc, items[i], items[j], loc, items[j]);
+                    t.states += 1;
+                    n += 1;
+                    check_text(&mut t, &text);
+                    // the same with the location after the list, and twice
+                    check_text(&mut t, &format!("PKGNAME={}\nALL_DEPENDS={} {}\nPKG_LOCATION={}\n", name, items[i], items[i], loc));
+                }
+            }
+        }
+        run.bound(format!("self-referring items: {} inputs whose ALL_DEPENDS items name the record's own package / location (eight shapes, all pairs), a neighbour's, or repeat", 2 * n));
+        run.merge(t);
+    }
     // items that collide under hand-written 32-bit hashes, side by side in one list (a memo of parsed
     // items keyed by such a hash returns the wrong item)
     {
